@@ -107,6 +107,9 @@ def ast_mutants(p, rng, n):
             # an expression of (probably) the wrong type where another was expected
             path = sites[rng.below(len(sites))]
             old = get(p, path)
+            parent = get(p, path[:-1]) if path else None
+            if isinstance(parent, tuple) and parent and parent[0] == "expr":
+                continue    # the expression of an expression statement may be of any type (and a sentence has to start with a capital letter)
             new = LITS[rng.below(len(LITS))]
             if new[0] == old[0]:
                 continue
